@@ -1,9 +1,22 @@
-# pid -> dict(text, ref, note, technique)
+# pid -> dict(text, ref, note, technique); executed by tools_manifest.py
 NOTE = ("Trusted: CPython, z3, the stub contracts of the simulated kernel listed in the evidence file (each follows the kernel's documented record formats), "
-        "floats modelled as exact reals with a round() model. Bounded: see evidence.coverage.bounds.")
-CHECKS["C07"] = dict(
-    text="Bounded symbolic model checking of the real cpu_times/cpu_percent/cpu_times_percent/Process.cpu_percent code: all tick values are solver variables (any magnitude in [0,2^64), any single counter running backwards), the total delta is pinned to boundary values incl. sub-second ones; z3 proves the share/sum/range formulas on every path, or returns snapshots that are replayed on the real code.",
-    ref="5.7", note=NOTE, technique="symbolic execution of the real Python code (proxy values) + z3 (QF_LIRA) per path; concrete replay of every model")
+        "floats modelled as exact reals with a round() model. Every result is bounded: see evidence.coverage.bounds and outside_claim.")
+TECH = "symbolic execution of the real Python code by proxy values; z3 decides every branch and obligation per path; every model replayed concretely on the real code"
+
+
+def _c(pid, text, ref, note=NOTE, technique=TECH):
+    CHECKS[pid] = dict(text=text, ref=ref, note=note, technique=technique)
+
+
+_c("C07", "Bounded symbolic model checking of the real cpu_times/cpu_percent/cpu_times_percent/Process.cpu_percent code: all tick values are solver variables (any magnitude in [0,2^64), any single counter running backwards), the total delta is pinned to boundary values incl. sub-second ones, the caller's thread id and the interval argument are symbolic; z3 proves the share/sum/range/own-baseline formulas on every path or returns snapshots that are replayed on the real code.", "5.7")
+_c("C08", "Bounded symbolic model checking of the real virtual_memory()/swap_memory(): every kB figure of /proc/meminfo, the zoneinfo watermarks and vmstat counters are solver variables, the presence of each optional field (group) is a symbolic flag; z3 proves the documented formulas (used, cached, available incl. the fallback estimate with exact truncation and clamps, percent, warnings) on every path.", "5.8")
+_c("C09", "Bounded symbolic model checking of net_io_counters/disk_io_counters/disk_usage: all counters and interface-name characters are solver variables, whole-disk membership is a symbolic answer per device, every diskstats layout is a configuration; z3 proves per-device fields, totals over whole disks only, and the disk_usage formulas. One listed known finding (15-field 2.4 layout).", "5.9")
+_c("C10", "Bounded symbolic model checking of the nowrap machinery through the public API: histories of K calls with symbolic function choice, nowrap flag, per-call device presence, raw counters and cache_clear events are explored and z3 proves value = raw + sum of pre-wrap values, monotonicity while present, restart after absence; plus one inductive step of _WrapNumbers.run from an arbitrary invariant-satisfying cache state (covers any history length for that step relation).", "5.10")
+_c("C13", "Bounded symbolic model checking of memory_info/memory_full_info/memory_maps/memory_percent: statm page counts and every per-mapping kB figure of one mapping are solver variables, optional smaps lines and the path kind are symbolic choices, roll-up present/absent/failing; z3 proves the sums agree between both sources, rows 1:1, grouped sums, percent formula and ValueError for every other field name (symbolic string).", "5.13")
+_c("C14", "Bounded symbolic model checking of open_files/num_fds/io_counters: the flag word, file offset and the kind of each descriptor (11 kinds incl. closing mid-scan) are solver variables; z3 proves the mode table for every flag word, the exact result set and fields, no exception for a live process; io file with junk lines at symbolic positions. One listed known finding (access mode 3).", "5.14")
+_c("C15", "Bounded symbolic model checking of wait()/wait_procs() on a virtual clock: the exit instant, the timeout, the exit status word (code or signal), child/non-child/never-existed and the EINTR position are solver variables; z3 proves never-early, right status, cached second call, back-off bounds, TimeoutExpired only if alive at the last poll and at most 40 ms late, timeout=0 never sleeps, wait_procs partition/callback/deadline.", "5.15")
+_c("C19", "Bounded symbolic model checking of sensors_temperatures/fans/battery, cpu_freq (cpuinfo variant), cpu_count, cpu_stats, boot_time over a simulated /sys and /proc tree: readings are solver variables, presence/garbage/unreadable states of every optional file, nesting, battery naming and AC state are symbolic choices; z3 proves the statement's arithmetic and skip/empty rules.", "5.19")
 _PENDING = "check not built yet in this session (work in progress; see DESIGN.md section 8)"
-for _p in ["C01","C02","C03","C04","C05","C06","C08","C09","C10","C11","C12","C13","C14","C15","C16","C17","C18","C19","C20"]:
-    NA[_p] = _PENDING
+for _p in ["C01", "C02", "C03", "C04", "C05", "C06", "C11", "C12", "C16", "C17", "C18", "C20"]:
+    if _p not in CHECKS:
+        NA[_p] = _PENDING
